@@ -733,11 +733,22 @@ def _prop_eval(t: Term, val: dict) -> bool:
     return val[t]
 
 
+def _sym_cmp(t: Term) -> Term:
+    """Symmetric comparisons with their operands in a canonical order, recursively."""
+    if isinstance(t, tuple) and t:
+        t = tuple(_sym_cmp(x) if isinstance(x, tuple) else x for x in t)
+        if t[0] == 'cmp' and t[1] in ('eq', 'ne', 'is', 'isnot') and len(t) == 4:
+            a, b = sorted((t[2], t[3]), key=repr)
+            return ('cmp', t[1], a, b)
+    return t
+
+
 def prop_equiv(a: Term, b: Term, max_atoms: int = 8) -> bool | None:
     """Propositional equivalence of two conditions over their atoms (anything that is not and / or / not); None when
     there are too many atoms.  Short-circuit evaluation is ignored: the atoms are treated as total."""
     import itertools
 
+    a, b = _sym_cmp(a), _sym_cmp(b)
     atoms: list = []
     _atoms(a, atoms)
     _atoms(b, atoms)
